@@ -12,7 +12,7 @@
 From Coq Require Import List NArith String.
 From Wbxml Require Import Model.Codec Model.TablesDefs Model.EncWbxml Model.TreeNorm Proofs.EncWbxmlProofs Proofs.EncWbxmlSerialize Proofs.EncWbxmlDenote Proofs.EncWbxmlAbs Proofs.EncWbxmlStrict2 Proofs.EncWbxmlDenote2
      Model.EncWbxmlEvents Proofs.EncWbxmlTblOk Proofs.EncWbxmlDenote3 Proofs.EncWbxmlAbs4 Proofs.EncWbxmlDenote4 Proofs.EncWbxmlAbs5 Model.EncWbxmlTables Proofs.EncWbxmlDenote5 Proofs.EncWbxmlCanon Proofs.EncWbxmlDenoteWv
-     Proofs.EncWbxmlDenote6 Proofs.EncWbxmlClass6 Proofs.EncWbxmlClasses Proofs.EncWbxmlUnion Proofs.EncWbxmlCanon2.
+     Proofs.EncWbxmlDenote6 Proofs.EncWbxmlClass6 Proofs.EncWbxmlClasses Proofs.EncWbxmlUnion Proofs.EncWbxmlCanon2 Proofs.EncWbxmlUnionPub.
 From Wbxml Require Model.Parser Model.Spec.
 Import ListNotations.
 Local Open Scope N_scope.
@@ -668,3 +668,24 @@ Proof.
   cbv zeta. split; [vm_compute; reflexivity|]. split; [vm_compute; reflexivity|]. split; [vm_compute; reflexivity|].
   eexists. split; [vm_compute; reflexivity|]. split; vm_compute; reflexivity.
 Qed.
+
+(* the union theorem with the PUBLIC-ID FIELD of the abstract document exported (unforced reading, embedded documents):
+   no textual id: the numeric id header_public_id; textual id p: an index into the table written that resolves to p *)
+Theorem C06_encoder_public_id_field_union : forall tblb TBL L o tag attrs ch bs,
+  let e := enc_env (to_blang L) o in
+  vals_ok L = true -> side_u L = true -> tag_tbl_ok e = true ->
+  tree_ok6 L (aok_u L) (tok_u L (o_keep_ws o)) (cok_plain L) (eok_plain tblb e L) (is_syncml (e_lang e)) 0 true None (NElt tag attrs ch) = true ->
+  find (fun x => l_id x =? l_id L) TBL = Some L ->
+  o_version o < 4 -> header_public_id e < 4294967296 -> header_public_id e <> 0 ->
+  (match header_pid e with Some p => okb p = true | None => True end) ->
+  len bs < 4294967296 ->
+  enc_wbxml tblb (to_blang L) o [NElt tag attrs ch] = EOk bs ->
+  exists d evs, bs = Spec.serialize d /\ Spec.strict_doc d = true /\
+            Spec.denote_with TBL (Some L) d = Some evs /\ Spec.decode_lang TBL (l_id L) bs = Some evs /\
+            merge_chars evs = merge_chars (doc_events6 tblb L e (acan_u L) (tev_u L e (o_keep_ws o)) (NElt tag attrs ch))
+            /\ match header_pid e with
+               | None => Spec.wd_pub d = Spec.PubNum (header_public_id e)
+               | Some p => exists i, Spec.wd_pub d = Spec.PubIdx i /\ Spec.str_at (Spec.wd_strtbl d) i = Some p
+               end.
+Proof. exact strict_decode_of_encoding6_pub. Qed.
+Print Assumptions C06_encoder_public_id_field_union.
